@@ -655,6 +655,7 @@ class Interp:
                 if dq in ('unsigned char', 'char', 'signed char'):
                     out = [(s, self.trunc8(v, dq)) for s, v in out]
                 elif dq.replace('const ', '') in NARROW_INT:
+                    out = [(s, self.conv_int(v, dq)) for s, v in out]
                     sq = sub.get('type', {})
                     sq = (sq.get('desugaredQualType') or sq.get('qualType') or '').replace('const ', '')
                     if sq in WIDE_INT:
@@ -896,9 +897,27 @@ class Interp:
             for s2, lv in self.lv(l, s):
                 old = self.load_lv(s2, lv, e)
                 new = self.arith(op, old, v)
+                # the result is converted to the type of the left operand (no cast node in the AST for this)
+                tq = e.get('type', {})
+                new = self.conv_int(new, (tq.get('desugaredQualType') or tq.get('qualType') or ''))
                 self.store_lv(s2, lv, new, e)
                 out.append((s2, new))
         return out
+
+    WIDTHS = {'unsigned char': (8, False), 'char': (8, True), 'signed char': (8, True), 'unsigned short': (16, False), 'short': (16, True),
+              'unsigned int': (32, False), 'int': (32, True)}
+
+    @classmethod
+    def conv_int(cls, v, qt):
+        """C conversion of a concrete integer to a narrower integer type (non-concrete values are left alone)"""
+        w = cls.WIDTHS.get(qt.replace('const ', '').replace('volatile ', '').strip())
+        if w is None or not isinstance(v, Int):
+            return v
+        bits, signed = w
+        x = v.v & ((1 << bits) - 1)
+        if signed and x >= (1 << (bits - 1)):
+            x -= 1 << bits
+        return Int(x) if x != v.v else v
 
     def ev_ConditionalOperator(self, e, st):
         c, a, b = e['inner']
